@@ -162,10 +162,32 @@ type NodeScript struct {
 
 // Step is one submission.
 type Step struct {
-	Kind   string       `json:"kind"`
-	Items  int          `json:"items"`
-	Cancel string       `json:"cancel,omitempty"` // caller-side fault: "" | pre | 5ms | 50ms | 200ms | after
-	Nodes  []NodeScript `json:"nodes"`
+	Kind   string `json:"kind"`
+	Items  int    `json:"items"`
+	Cancel string `json:"cancel,omitempty"` // caller-side fault: "" | pre | 5ms | 50ms | 200ms | after
+	// Deadline: the caller's context merely HAS a deadline (never cancelled early): "" | before (the
+	// timeout) | near (shortly after the timeout) | far (2-3 s after it); DeadlineMs from the step's start.
+	Deadline   string       `json:"deadline,omitempty"`
+	DeadlineMs int          `json:"deadline_ms,omitempty"`
+	Nodes      []NodeScript `json:"nodes"`
+}
+
+// plain: the caller's context neither ends nor has a deadline.
+func (st *Step) plain() bool { return st.Cancel == "" && st.Deadline == "" }
+
+// ctxEndsEarly: the caller's context may be done before the submitter's timeout has passed (or
+// around it); such a step is judged on the time bound, delivery soundness and the causal backing of
+// a reported success only.
+func (st *Step) ctxEndsEarly() bool { return st.Cancel != "" || st.Deadline == "before" }
+
+func (st *Step) ctxShape() string {
+	switch {
+	case st.Cancel != "":
+		return "cancelled: " + st.Cancel
+	case st.Deadline != "":
+		return fmt.Sprintf("deadline %s (%d ms)", st.Deadline, st.DeadlineMs)
+	}
+	return ""
 }
 
 // Case is a history of submissions against one service instance.
@@ -374,7 +396,7 @@ func genKind(t *rapid.T, uniform bool) string {
 }
 
 func genCase(t *rapid.T) Case {
-	c := Case{Service: weighted(t, "service", "multinode", 11, "immediate", 1)}
+	c := Case{Service: weighted(t, "service", "multinode", 11, "immediate", 2)}
 	imm := c.Service == "immediate"
 	nNodes := rapid.IntRange(1, 5).Draw(t, "nodes")
 	if imm {
@@ -387,13 +409,17 @@ func genCase(t *rapid.T) Case {
 		c.PC = rapid.IntRange(1, nNodes+3).Draw(t, "pc")
 	}
 	nSteps := rapid.SampledFrom([]int{1, 1, 1, 1, 2, 2, 2, 3, 3, 4}).Draw(t, "steps")
+	if imm {
+		// submissions through the immediate submitter are cheap (no timeout to wait for)
+		nSteps = rapid.SampledFrom([]int{1, 2, 3, 4, 4}).Draw(t, "immediateSteps")
+	}
 	sameKind := rapid.IntRange(0, 9).Draw(t, "sameKind") < 6
 	var kindsUsed []string
 	first := genKind(t, nSteps > 1 && sameKind)
 	for s := 0; s < nSteps; s++ {
 		k := first
 		if s > 0 && !sameKind {
-			k = genKind(t, false)
+			k = genKind(t, imm)
 		}
 		kindsUsed = append(kindsUsed, k)
 	}
@@ -431,11 +457,30 @@ func genCase(t *rapid.T) Case {
 		if st.Kind == "proposal" {
 			st.Items = 1
 		}
-		if !imm && rapid.IntRange(0, 3).Draw(t, "cancelled") == 0 {
+		// the caller's context: plain | cancelled at an instant | merely carrying a deadline
+		shape := weighted(t, "ctxShape", "plain", 12, "cancel", 4, "deadline", 4)
+		if imm {
+			shape = weighted(t, "ctxShape", "plain", 5, "cancel", 4, "deadline", 1)
+		}
+		switch shape {
+		case "cancel":
 			st.Cancel = rapid.SampledFrom([]string{"pre", "5ms", "5ms", "50ms", "50ms", "200ms", "after"}).Draw(t, "cancel")
+		case "deadline":
+			st.Deadline = weighted(t, "deadline", "before", 1, "near", 1, "far", 2)
+			if imm {
+				st.Deadline = "before"
+			}
+			switch st.Deadline {
+			case "before":
+				st.DeadlineMs = rapid.IntRange(20, 250).Draw(t, "deadlineMs")
+			case "near":
+				st.DeadlineMs = int(timeout/time.Millisecond) + rapid.IntRange(100, 200).Draw(t, "deadlineMs")
+			case "far":
+				st.DeadlineMs = int(timeout/time.Millisecond) + rapid.IntRange(2000, 3000).Draw(t, "deadlineMs")
+			}
 		}
 		for i := 0; i < nNodes; i++ {
-			st.Nodes = append(st.Nodes, genScript(t, st.Kind, st.Items, &c.Nodes[i], personas[i], flaky[i], imm, st.Cancel != ""))
+			st.Nodes = append(st.Nodes, genScript(t, st.Kind, st.Items, &c.Nodes[i], personas[i], flaky[i], imm, !st.plain()))
 		}
 		c.Steps = append(c.Steps, st)
 	}
@@ -661,15 +706,11 @@ func (n *node) serve(ctx context.Context, method string, step int, ids []int) er
 		switch script.Delay {
 		case "slow":
 			d := time.Duration(script.SlowMs) * time.Millisecond
-			if w.c.Service == "immediate" {
-				time.Sleep(d)
-			} else {
-				select {
-				case <-time.After(d):
-				case <-w.stepRelease[step]:
-				case <-ctxDone:
-					aborted = true
-				}
+			select {
+			case <-time.After(d):
+			case <-w.stepRelease[step]:
+			case <-ctxDone:
+				aborted = true
 			}
 		case "late":
 			select {
@@ -1023,8 +1064,14 @@ func validCase(c *Case) string {
 		if _, ok := cancelAt[st.Cancel]; !ok && st.Cancel != "" {
 			return "cancel"
 		}
-		if st.Cancel != "" && c.Service == "immediate" {
-			return "cancel"
+		switch st.Deadline {
+		case "":
+		case "before", "near", "far":
+			if st.DeadlineMs < 1 || st.DeadlineMs > 10000 || st.Cancel != "" {
+				return "deadline"
+			}
+		default:
+			return "deadline"
 		}
 		for i := range st.Nodes {
 			n := &st.Nodes[i]
@@ -1182,12 +1229,18 @@ func run(c *Case) *obs {
 		so.nodes = make([]nodeObs, len(nodes))
 		p := w.pls[s]
 		ctx, cancel := context.WithCancel(parent)
+		deadlineAfter := time.Duration(st.DeadlineMs) * time.Millisecond
 		defer cancel()
 		done := make(chan result, 1)
 		if st.Cancel == "pre" {
 			cancel()
 		}
 		start := time.Now()
+		if st.Deadline != "" {
+			var cancelDeadline context.CancelFunc
+			ctx, cancelDeadline = context.WithDeadline(ctx, start.Add(deadlineAfter))
+			defer cancelDeadline()
+		}
 		w.starts[s] = start
 		w.cur.Store(int64(s))
 		if st.Cancel != "" && st.Cancel != "pre" {
@@ -1236,7 +1289,7 @@ func run(c *Case) *obs {
 			}
 			return all
 		}
-		if so.returned && enough && st.Cancel == "" {
+		if so.returned && enough && !st.ctxEndsEarly() && st.Deadline != "near" {
 			// isolation: with enough process concurrency every node is offered everything
 			// while the bad nodes (of this and of earlier submissions) are still bad
 			for eff, last := time.Duration(0), time.Now(); !fullAll() && eff < deliverCeil; {
@@ -1299,7 +1352,7 @@ func run(c *Case) *obs {
 				sn := n.snapshot(s)
 				inflight += sn.inflight
 				calls += sn.ncalls
-				if len(sn.ids) < c.Steps[s].Items && c.Steps[s].Cancel == "" && o.steps[s].returned {
+				if len(sn.ids) < c.Steps[s].Items && c.Steps[s].plain() && o.steps[s].returned {
 					complete = false
 				}
 			}
@@ -1344,7 +1397,7 @@ func run(c *Case) *obs {
 			no.done = sn.inflight == 0 && sn.ncalls > 0
 			no.finished = sn.lastLeave
 			no.ncalls = sn.ncalls
-			if sn.inflight != 0 && !abandoned && c.Steps[s].Cancel == "" {
+			if sn.inflight != 0 && !abandoned && c.Steps[s].plain() {
 				// (in a step whose context was cancelled a node may be called arbitrarily late or
 				// never; such a call is simply not part of the judgement: done == false)
 				o.harness = "a node call is still in flight after release"
@@ -1375,8 +1428,8 @@ func judgeStep(t ev.TB, c *Case, o *obs, s int) bool {
 	so := &o.steps[s]
 	k := st.Kind
 	where := fmt.Sprintf("step %d/%d (%s", s+1, len(c.Steps), k)
-	if st.Cancel != "" {
-		where += ", caller's context cancelled: " + st.Cancel
+	if !st.plain() {
+		where += ", caller's context " + st.ctxShape()
 	}
 	where += ")"
 	svcTag := ""
@@ -1411,8 +1464,9 @@ func judgeStep(t ev.TB, c *Case, o *obs, s int) bool {
 	enough := c.Service == "immediate" || c.PC >= len(c.Nodes)
 	for i := range so.nodes {
 		no := &so.nodes[i]
-		if st.Cancel != "" {
-			// only soundness: what was offered is part of the submission, nothing twice
+		if !st.plain() && (st.ctxEndsEarly() || st.Deadline == "near" || !enough) {
+			// only soundness: what was offered is part of the submission, nothing twice (a node that
+			// is reached after the context has ended may not be called at all)
 			if !no.sound {
 				violation(t, svcTag+"payload-mismatch:"+k, c, "%s: node %d was offered items %v over %d call(s); submitted were 0..%d", where, i, no.ids, no.ncalls, st.Items-1)
 				return false
@@ -1487,10 +1541,10 @@ func judgeStep(t ev.TB, c *Case, o *obs, s int) bool {
 		violation(t, "false-success:"+k+":"+present[0], c, "%s", detail)
 		return true
 	}
-	if !success && okEarly && st.Cancel == "" && so.maxGap > stallGap {
+	if !success && okEarly && !st.ctxEndsEarly() && so.maxGap > stallGap {
 		// the process was paused for longer than the guard band tolerates: not judged
 		ev.Label("stalled-not-judged")
-	} else if !success && okEarly && st.Cancel == "" {
+	} else if !success && okEarly && !st.ctxEndsEarly() {
 		cl := ""
 		for i := range so.nodes {
 			if no := &so.nodes[i]; no.ok == "yes" && no.done && no.full && no.finished <= earlyLimit(&st.Nodes[i], no.class) {
@@ -1626,6 +1680,12 @@ func check(t ev.TB, c *Case) {
 		if st.Cancel != "" {
 			labelSet["cancel:"+st.Cancel] = true
 		}
+		if st.Deadline != "" {
+			labelSet["deadline:"+st.Deadline] = true
+		}
+		if !st.plain() && c.Service == "immediate" {
+			labelSet["immediate-with-ending-context"] = true
+		}
 		if pendingBefore {
 			labelSet["step-with-node-still-pending-from-earlier-step"] = true
 		}
@@ -1676,7 +1736,7 @@ func check(t ev.TB, c *Case) {
 		okPlanned, okEarly, okBand := false, false, false
 		for i := range so.nodes {
 			no := &so.nodes[i]
-			if no.ok == "yes" && (st.Nodes[i].Delay == "none" || st.Nodes[i].Delay == "slow") && st.Nodes[i].VersionDelay == "" && c.PC >= len(c.Nodes) && st.Cancel == "" {
+			if no.ok == "yes" && (st.Nodes[i].Delay == "none" || st.Nodes[i].Delay == "slow") && st.Nodes[i].VersionDelay == "" && c.PC >= len(c.Nodes) && !st.ctxEndsEarly() {
 				okPlanned = true
 			}
 			if no.ok == "yes" && no.done && no.full {
